@@ -121,7 +121,11 @@ def py_rom20(file, kek, pub):
         off = boff + 16 * count
     if off != stop:
         raise RomReject("sections overrun the image")
-    return {"signed": signed, "ts": ts, "build": build, "pv": [vers[0], vers[2], vers[4]], "cv": [vers[6], vers[8], vers[10]],
+    # the loader starts with the section whose id equals first_boot_section_id
+    ids = [uid for uid, _ in secs]
+    if first_sid not in ids:
+        raise RomReject(f"first boot section id {first_sid:#x} is carried by no section {[hex(u) for u in ids]}")
+    return {"boot_index": ids.index(first_sid), "signed": signed, "ts": ts, "build": build, "pv": [vers[0], vers[2], vers[4]], "cv": [vers[6], vers[8], vers[10]],
             "secs": secs, "signed_len": stop, "sig": sig}
 
 
@@ -288,9 +292,66 @@ def run_v20(rep, rng, thorough, model_ok, run_runner20, model_eval):
         if r["signed"] != bool(case["signed"]) or r["build"] != case["build"] or r["pv"] != base.bcd(case["pv"]) \
                 or r["cv"] != base.bcd(case["cv"]) or r["ts"] != (case["ts"] - EPOCH2000) * 1000000:
             problems.append(f"header fields: signed {r['signed']}/{case['signed']} build {r['build']}/{case['build']} pv {r['pv']} cv {r['cv']} ts {r['ts']}")
+        if r["boot_index"] != 0:
+            problems.append(f"first_boot_section_id selects section {r['boot_index']} as the one to start with, not the first")
         if problems:
             rep.failing("rom20:decoded-content-differs", "the SB 2.0 ROM reference decodes something else than was given: " + "; ".join(problems),
                         {"kind": "build20+rom", "case": case, "file": ex[1]})
+    # ---- object history on BootImageV20: change a built image through the public API, export, compare with a fresh object
+    kinds = ["replace_section", "set_uid", "add_section", "add_cmd"]
+    hops = []
+    for i, (case, b) in enumerate(zip(cases, built)):
+        if len(hops) >= (12 if thorough else 4):
+            break
+        if "harness_error" in b or b["export"][0] != "ok":
+            continue
+        c0, c1 = copy.deepcopy(case), copy.deepcopy(case)
+        kind = kinds[(len(hops) + vlib.seed()) % len(kinds)]
+        si = 0 if len(hops) % 2 == 0 else len(c0["secs"]) - 1
+        if kind == "replace_section":
+            sec = {"uid": 0x5EC0 + len(hops), "hmac": 1, "zero": 1, "cmds": [[5, 0x200, 9], [2, 0x5000, 0, "bb" * 19, 1]]}
+            change = {"kind": kind, "section": si, "sec": sec}
+            c1["secs"][si] = sec
+        elif kind == "set_uid":
+            change = {"kind": kind, "section": si, "uid": 0xA000 + len(hops)}
+            c1["secs"][si]["uid"] = change["uid"]
+        elif kind == "add_section":
+            sec = {"uid": 0x77000 + len(hops), "hmac": 2, "zero": 1, "cmds": [[7, 0, 0x400, 0, 0], [2, 0x4000, 0, "aa" * 40, 1]]}
+            change = {"kind": kind, "sec": sec}
+            c1["secs"].append(sec)
+        else:
+            cmd = [2, 0x3000, 0, bytes(rng.getrandbits(8) for _ in range(21)).hex(), 1]
+            change = {"kind": kind, "section": si, "cmd": cmd}
+            c1["secs"][si]["cmds"].append(cmd)
+        if not case_in_domain(c1):
+            continue
+        hops.append({"op": "history20", "case": c0, "change": change, "changed_case": c1})
+    rh = run_runner20({"keydir": base.KEYDIR, "need_chains": sorted({o["case"]["chain"] for o in hops}), "ops": hops})["results"] if hops else []
+    hp2 = [r["harness_error"] for r in rh if "harness_error" in r]
+    rep.obligation("harness:SB2.0 history set-up", not hp2, "; ".join(hp2[:3]))
+    n_hist = 0
+    for o, r in zip(hops, rh):
+        if "harness_error" in r or r["first"][0] != "ok":
+            continue
+        n_hist += 1
+        ops_seq = ["build", "export", o["change"], "update", "export"]
+        if r["changed"] != r["fresh_changed"]:
+            rep.failing(f"history:stale-after-change:{o['change']['kind']}:BootImageV20", f"BootImageV20.export() after {o['change']['kind']} differs "
+                        "from the export of a fresh object configured with the new content",
+                        {"kind": "history", "operations": ops_seq, "case": o["case"], "changed_case": o["changed_case"]})
+        if r["changed"][0] == "ok":
+            ci = chain_info[o["case"]["chain"]]
+            try:
+                rr = py_rom20(bytes.fromhex(r["changed"][1]), bytes.fromhex(o["case"]["kek"]),
+                              (int(ci["n"]), ci["e"]) if o["case"]["signed"] else None)
+                if rr["boot_index"] != 0 or [u for u, _ in rr["secs"]] != [s_["uid"] for s_ in o["changed_case"]["secs"]]:
+                    raise base.RomReject(f"boot index {rr['boot_index']}, section ids {[u for u, _ in rr['secs']]}")
+            except base.RomReject as rj:
+                rep.failing(f"history:stale-after-change:{o['change']['kind']}:BootImageV20:rom", f"after {o['change']['kind']} the exported SB 2.0 file "
+                            f"is not processed as given by the ROM reference: {rj}",
+                            {"kind": "history", "operations": ops_seq, "case": o["case"]})
+    rep.add_stream("BootImageV20 object history: change (replace section / set uid / add section / add command) then export vs fresh object",
+                   len(hops), n_hist, samples=[o["change"] for o in hops[:2]])
     rep.obligation("harness:SB2.0 reference ROM ran on every file", not tool_problems, "; ".join(tool_problems[:5]))
     n_parse_ok = 0
     for (i, p, d), r in zip(opmap, r2):
@@ -371,7 +432,7 @@ def run_v20(rep, rng, thorough, model_ok, run_runner20, model_eval):
                     want = ("l", [("l", [("i", int(r["signed"])), ("l", [("i", x) for x in r["pv"]]), ("l", [("i", x) for x in r["cv"]]),
                                          ("i", r["build"]), ("i", r["ts"]),
                                          ("l", [("l", [("i", uid), ("l", [base.rom_cmd_value(c) for c in cmds])]) for uid, cmds in r["secs"]]),
-                                         ("i", r["signed_len"]), ("b", r["sig"])])])
+                                         ("i", r["signed_len"]), ("b", r["sig"]), ("i", r["boot_index"])])])
                     good = m == want
             if not good:
                 ndis[lb[0]] = ndis.get(lb[0], 0) + 1
